@@ -4,6 +4,7 @@ import (
 	"errors"
 	"fmt"
 
+	"github.com/fxamacker/cbor/v2"
 	"github.com/taurusgroup/multi-party-sig/internal/bip32"
 	"github.com/taurusgroup/multi-party-sig/internal/params"
 	"github.com/taurusgroup/multi-party-sig/pkg/math/curve"
@@ -209,4 +210,97 @@ func (r *TaprootConfig) DeriveChild(i uint32) (*TaprootConfig, error) {
 		return nil, err
 	}
 	return r.Derive(scalar, newChainKey)
+}
+
+// configAlias / taprootConfigAlias have the fields of the configs but none of their methods,
+// so that they decode with cbor's default struct decoding.
+type (
+	configAlias        Config
+	taprootConfigAlias TaprootConfig
+)
+
+// validateStored checks what a stored frost key share must satisfy.
+func validateStored(id party.ID, threshold int, secretZero bool, shares int, ownShare bool, chainKey []byte) error {
+	if id == "" {
+		return errors.New("config: party ID is missing")
+	}
+	if secretZero {
+		return errors.New("config: private share is missing or zero")
+	}
+	if threshold < 0 || threshold > shares-1 {
+		return fmt.Errorf("config: threshold %d is invalid for %d parties", threshold, shares)
+	}
+	if !ownShare {
+		return errors.New("config: no verification share for this party")
+	}
+	if len(chainKey) != 0 && len(chainKey) != params.SecBytes {
+		return fmt.Errorf("config: chain key of %d bytes", len(chainKey))
+	}
+	return nil
+}
+
+// UnmarshalCBOR decodes a stored Config (created with EmptyConfig, so that the group is known)
+// and refuses material that cannot be a key share.
+func (r *Config) UnmarshalCBOR(data []byte) (err error) {
+	defer func() {
+		if p := recover(); p != nil {
+			err = fmt.Errorf("config: malformed encoding: %v", p)
+		}
+	}()
+	if r.PrivateShare == nil || r.PublicKey == nil || r.VerificationShares == nil {
+		return errors.New("config must be initialized using EmptyConfig")
+	}
+	if err = cbor.Unmarshal(data, (*configAlias)(r)); err != nil {
+		return err
+	}
+	if r.PrivateShare == nil || r.PublicKey == nil || r.VerificationShares == nil {
+		return errors.New("config: missing field")
+	}
+	if r.PublicKey.IsIdentity() {
+		return errors.New("config: public key is the identity")
+	}
+	for j, p := range r.VerificationShares.Points {
+		if p == nil || p.IsIdentity() {
+			return fmt.Errorf("config: verification share of %s is missing or the identity", j)
+		}
+	}
+	own, ok := r.VerificationShares.Points[r.ID]
+	if err = validateStored(r.ID, r.Threshold, r.PrivateShare.IsZero(), len(r.VerificationShares.Points), ok, r.ChainKey); err != nil {
+		return err
+	}
+	if !r.PrivateShare.ActOnBase().Equal(own) {
+		return errors.New("config: private share does not match its verification share")
+	}
+	return nil
+}
+
+// UnmarshalCBOR decodes a stored TaprootConfig and refuses material that cannot be a key share.
+func (r *TaprootConfig) UnmarshalCBOR(data []byte) (err error) {
+	defer func() {
+		if p := recover(); p != nil {
+			err = fmt.Errorf("config: malformed encoding: %v", p)
+		}
+	}()
+	if err = cbor.Unmarshal(data, (*taprootConfigAlias)(r)); err != nil {
+		return err
+	}
+	if r.PrivateShare == nil {
+		return errors.New("config: private share is missing or zero")
+	}
+	if _, err = (curve.Secp256k1{}).LiftX(r.PublicKey); err != nil || len(r.PublicKey) != 32 {
+		return errors.New("config: public key is not a valid x-only key")
+	}
+	for j, p := range r.VerificationShares {
+		if p == nil || p.IsIdentity() {
+			return fmt.Errorf("config: verification share of %s is missing or the identity", j)
+		}
+	}
+	own, ok := r.VerificationShares[r.ID]
+	if err = validateStored(r.ID, r.Threshold, r.PrivateShare.IsZero(), len(r.VerificationShares), ok, r.ChainKey); err != nil {
+		return err
+	}
+	if !r.PrivateShare.ActOnBase().Equal(own) {
+		return errors.New("config: private share does not match its verification share")
+	}
+	return nil
 }
